@@ -13,9 +13,11 @@ import (
 	"runtime"
 	"strings"
 	"sync"
+	"sync/atomic"
 	"time"
 
 	"github.com/yandex/pandora/core"
+	"github.com/yandex/pandora/core/coreutil"
 	"github.com/yandex/pandora/core/engine"
 	"github.com/yandex/pandora/core/schedule"
 
@@ -391,6 +393,69 @@ var seeds = []Pool{
 	{Instances: 5, PerInstance: false, RPS: SchedSpec{Kind: "line", A: 10, B: 60, DurMs: 2000}, Ammo: 9, AmmoClass: "ramp", Ramp: true, ShotMaxUs: 2000, Seed: 11},
 }
 
+// sharedProfileExhaustion: what the instances of a pool do with their shared profile, without the
+// rest of the pool around it, so that it can be repeated tens of thousands of times: 16 callers
+// released together loop "is the profile finished? — wait for the next request — fire" on one
+// fresh finite profile until it is used up, through the same Waiter the engine's instances use.
+// The moment of exhaustion (several callers being refused while others still ask whether anything
+// is left) is met on every round. Conservation: the requests handed out are exactly the profile's.
+func sharedProfileExhaustion(res *vkit.Result, rounds int) {
+	kinds := []struct {
+		name string
+		mk   func() core.Schedule
+	}{
+		{"once(40)", func() core.Schedule { return schedule.NewOnce(40) }},
+		{"const(50)", func() core.Schedule { return schedule.NewConst(1e6, 50*time.Microsecond) }},
+		{"step(20+40)", func() core.Schedule { return schedule.NewStep(1e6, 2e6, 1e6, 20*time.Microsecond) }},
+		{"composite(once 8, const 30)", func() core.Schedule {
+			return schedule.NewComposite(schedule.NewOnce(8), schedule.NewConst(1e6, 30*time.Microsecond))
+		}},
+	}
+	const callers = 16
+	for _, k := range kinds {
+		c := map[string]any{"profile": k.name, "callers": callers, "rounds": rounds}
+		bad := ""
+		fired := int64(0)
+		for r := 0; r < rounds && bad == ""; r++ {
+			s := k.mk()
+			tokens := int64(s.Left())
+			var got atomic.Int64
+			var wg sync.WaitGroup
+			begin := make(chan struct{})
+			ctx := context.Background()
+			for g := 0; g < callers; g++ {
+				wg.Add(1)
+				go func() {
+					defer wg.Done()
+					w := coreutil.NewWaiter(s)
+					<-begin
+					for !w.IsFinished(ctx) {
+						if !w.Wait(ctx) {
+							break
+						}
+						got.Add(1)
+					}
+				}()
+			}
+			close(begin)
+			wg.Wait()
+			if n := got.Load(); n != tokens {
+				bad = fmt.Sprintf("round %d: the shared profile holds %d requests, its %d callers were handed %d", r, tokens, callers, n)
+			}
+			if l := s.Left(); l != 0 && bad == "" {
+				bad = fmt.Sprintf("round %d: every caller has been refused, yet the profile says %d requests are left", r, l)
+			}
+			fired += got.Load()
+		}
+		if bad != "" {
+			res.Violate("C03/shared-profile-exhaustion/conservation", bad, c)
+		}
+		res.Count("exhaustion_rounds", int64(rounds))
+		res.Count("exhaustion_requests", fired)
+		res.Eval(vkit.JSON(c), true)
+	}
+}
+
 func main() {
 	res := vkit.NewResult("random mock pools: 1–16 instances, once/const startup (or a ramp still running when a small ammo supply runs out under a paced profile), shared or per-instance finite RPS profile (once/const/line/step/composite ≤ ~0.6 s), ammo ∈ {0,1,T−1,T,T+1,T+N,10T}, discard_overflow on/off, shot duration 0–3 ms, GOMAXPROCS ∈ {1,2,4,16}; shared profiles are pre-started ≈2 s in the past in a quarter of the pools so that overdue tokens (discards) occur; distinct = distinct pool descriptions; non-trivial = expected fired+discarded ≥ 2 and at least one instance started")
 	rng := vkit.Rand("c03")
@@ -431,6 +496,7 @@ func main() {
 		wg.Wait()
 	}
 	runtime.GOMAXPROCS(runtime.NumCPU())
+	sharedProfileExhaustion(res, vkit.N(6000, 60000))
 	vkit.CheckRaceLog(res, "C03")
 	if res.Counter("pools_with_discards") == 0 || res.Counter("pools_with_2plus_instances") < 10 {
 		res.Inconclusive(true, "no pool produced discards or too few multi-instance pools")
